@@ -192,6 +192,25 @@ func RunStream(c *Ctx, cfg StreamCfg, handle func(w *Worker, sc StrCase, res *[s
 			}
 		})
 	}
+	// very long and degenerate inputs
+	{
+		var long []StrCase
+		for vi, v := range spec.Versions {
+			full := v.Canonical(gen.Background(c.Rand("long", v.Name), v, 1))
+			_, el := gen.SplitElems(v, full)
+			body := strings.Join(el, "/")
+			for _, k := range []int{2, 3, 10, 1000} {
+				long = append(long, StrCase{full + strings.Repeat("/"+body, k-1), vi, "long-repeated-body"})
+			}
+			long = append(long, StrCase{full + strings.Repeat("/", 100000), vi, "long-slashes"})
+			long = append(long, StrCase{full + "/" + strings.Repeat(el[len(el)-1]+"/", 20000), vi, "long-repeated-last"})
+			long = append(long, StrCase{v.Header + strings.Repeat("A", 1<<20), vi, "long-garbage"})
+			long = append(long, StrCase{v.Header + strings.Repeat(":", 70000), vi, "long-colons"})
+			long = append(long, StrCase{strings.Repeat(full, 3), vi, "long-concatenated"})
+		}
+		long = append(long, StrCase{strings.Repeat("/", 1<<20), -1, "long-slashes"}, StrCase{strings.Repeat("\x00", 1<<16), -1, "long-nul"}, StrCase{"", -1, "empty"})
+		c.Parallel("long", len(long), 1, func(w *Worker, i int) { do(w, long[i]) })
+	}
 	// (c)+(d) random
 	for vi, v := range spec.Versions {
 		vi, v := vi, v
